@@ -618,6 +618,9 @@ def r18_10(prog, rep, rid="R18.10"):
         rep.broken_("rule=%s expected the two detach masks on the date part, found %d" % (rid, n))
 
 
+_TIER = "quick"
+
+
 def r18_11(prog, rep, rid="R18.11"):
     """The number printer takes the count of decimal digits from ilog10_ceil(), a bit trick on top of another (a de Bruijn table for the
     binary logarithm, a multiplication for the ratio of the logarithms, one comparison against a power of ten): one digit too few and
@@ -631,6 +634,8 @@ def r18_11(prog, rep, rid="R18.11"):
         vals |= {10 ** k - 1, 10 ** k, 10 ** k + 1}
     for k in range(4, 32):
         vals |= {(1 << k) - 1, 1 << k, (1 << k) + 1}
+    if _TIER == "thorough":
+        vals |= set(range(0, 2049)) | {10 ** k + d for k in range(1, 10) for d in range(-9, 10)} | {(1 << k) + d for k in range(4, 32) for d in range(-3, 4)}
     vals = sorted(v for v in vals if 0 <= v < (1 << 32))
     bad = []
     for v in vals:
@@ -649,6 +654,8 @@ def r18_11(prog, rep, rid="R18.11"):
 
 
 def run(prog, rep, tier, snap):
+    global _TIER
+    _TIER = tier
     rep.rule("R18.1", "64-bit accumulation in the duration parser", 2)
     rep.call(r18_1, prog, rep)
     rep.rule("R18.8", "every grammatical spelling of a duration reads as the duration it spells", 1)
